@@ -80,8 +80,12 @@ def lifecycle_replay(env):
             bad.append('%s: unfitted query raised %s' % (K_.__name__, type(e).__name__))
     g = GaussianMultivariate()
     for name, Xbad in (('empty', pd.DataFrame({'a': []})), ('nan', pd.DataFrame({'a': [1.0, np.nan]})),
-                       ('strings', pd.DataFrame({'a': ['x', 'y']}))):
+                       ('strings', pd.DataFrame({'a': ['x', 'y']})),
+                       ('boolean', pd.DataFrame({'a': [1.0, 2.5, 4.0, 0.5], 'b': [True, False, True, True]})),
+                       ('digit strings', pd.DataFrame({'a': [1.0, 2.5, 4.0, 0.5], 'b': ['1', '2', '3', '5']})),
+                       ('python objects', pd.DataFrame({'a': [1.0, 2.5], 'b': [object(), object()]}))):
         try:
+            g = GaussianMultivariate(distribution=GaussianUnivariate)
             g.fit(Xbad)
             bad.append('GaussianMultivariate.fit accepted %s data' % name)
         except ValueError:
